@@ -41,6 +41,7 @@ def generate(tier, seed):
 
 
 impl = fitcase.impl_fit
+shrink = fitcase.shrink
 MODEL_NEEDS_IMPL = True
 
 
